@@ -448,12 +448,26 @@ pub fn crash(case: &JsonValue) -> JsonValue {
             Err(_) => JsonValue::Null,
         }
     };
-    let inode_before = inode_of(&live_path);
     let mut job = JsonValue::new_object();
     job["dir"] = dir.to_str().unwrap().into();
     job["year"] = year.into();
     job["rows"] = case["new"].clone();
     let exe = std::env::current_exe().unwrap();
+    // an EARLIER run of the same write, killed at the step boundary "first_crash"
+    if let Some(fc) = case["first_crash"].as_str() {
+        let mut c0 = std::process::Command::new(&exe);
+        c0.arg("crashchild").stdin(std::process::Stdio::piped()).stdout(std::process::Stdio::null()).stderr(std::process::Stdio::null());
+        c0.env("ACB_VERIF_CRASH", fc).env_remove("ACB_VERIF_TRACE");
+        let mut ch = c0.spawn().unwrap();
+        {
+            use std::io::Write;
+            let mut si = ch.stdin.take().unwrap();
+            si.write_all(job.dump().as_bytes()).unwrap();
+            si.write_all(b"\n").unwrap();
+        }
+        let _ = ch.wait();
+    }
+    let inode_before = inode_of(&live_path);
     let mut cmd = std::process::Command::new(exe);
     cmd.arg("crashchild").stdin(std::process::Stdio::piped()).stdout(std::process::Stdio::piped()).stderr(std::process::Stdio::null());
     let spec = case["crash"].as_str().unwrap_or("");
